@@ -380,6 +380,7 @@ type c05Two struct {
 	consB    string // eager | stalled   (A never reads before the end)
 	writers  [][]wop
 	watchBuf int
+	cancelA  bool // a thread cancels A's context somewhere in the window
 }
 
 func (c c05Two) name() string {
@@ -391,22 +392,28 @@ func (c c05Two) name() string {
 		}
 		ws = append(ws, strings.Join(s, ","))
 	}
-	return fmt.Sprintf("C05/two-subscribers/A=stalled(%s)/B=%s(%s,late=%v)/buf=%d/%s", c05Prefix, c.consB, c.prefixB, c.lateB, c.watchBuf, strings.Join(ws, "|"))
+	n := fmt.Sprintf("C05/two-subscribers/A=stalled(%s)/B=%s(%s,late=%v)/buf=%d/%s", c05Prefix, c.consB, c.prefixB, c.lateB, c.watchBuf, strings.Join(ws, "|"))
+	if c.cancelA {
+		n += "/A-cancelled"
+	}
+	return n
 }
 
 func c05TwoConfigs(tier string) []c05Two {
 	w3 := [][]wop{{wCreateX, wUpdateX, wDeleteX, wCreateX}}
 	w1b := [][]wop{{wCreateX, wCreateOut, wCreateY}}
 	out := []c05Two{
-		{c05Prefix, false, "eager", w3, 1},
-		{"/r/w/x", false, "eager", w1b, 1},
+		{c05Prefix, false, "eager", w3, 1, false},
+		{"/r/w/x", false, "eager", w1b, 1, false},
+		{c05Prefix, false, "eager", w1b, 1, true},
 	}
 	if tier == "thorough" {
 		out = append(out,
-			c05Two{c05Prefix, true, "eager", w3, 1},
-			c05Two{c05Prefix, false, "stalled", w3, 1},
-			c05Two{"/r/", true, "eager", w1b, 1},
-			c05Two{c05Prefix, false, "eager", [][]wop{{wCreateX, wUpdateX}, {wCreateY, wDupP}}, 2},
+			c05Two{c05Prefix, true, "eager", w3, 1, false},
+			c05Two{c05Prefix, false, "eager", w3, 1, true},
+			c05Two{c05Prefix, false, "stalled", w3, 1, false},
+			c05Two{"/r/", true, "eager", w1b, 1, false},
+			c05Two{c05Prefix, false, "eager", [][]wop{{wCreateX, wUpdateX}, {wCreateY, wDupP}}, 2, false},
 		)
 	}
 	return out
@@ -435,7 +442,15 @@ func c05TwoScenario(c c05Two) *mc.Scenario {
 		B := &sub{name: "B", prefix: c.prefixB, start: committed + 1}
 		ctx, cancel := context.WithCancel(bg)
 		defer cancel()
-		register := func(s *sub) { s.ch, s.err = w.b.Watch(ctx, s.prefix, s.start) }
+		ctxA, cancelA := context.WithCancel(bg)
+		defer cancelA()
+		register := func(s *sub) {
+			if s == A {
+				s.ch, s.err = w.b.Watch(ctxA, s.prefix, s.start)
+				return
+			}
+			s.ch, s.err = w.b.Watch(ctx, s.prefix, s.start)
+		}
 		take := func(s *sub, evs []*proto.Event) {
 			for _, e := range evs {
 				s.recv = append(s.recv, evRec{e.Type, e.Revision, string(e.Kv.GetKey()), string(e.Kv.GetValue()), e.Kv.GetRevision()})
@@ -468,6 +483,9 @@ func c05TwoScenario(c c05Two) *mc.Scenario {
 			}
 		})
 		var ths []*vrt.Thread
+		if c.cancelA {
+			ths = append(ths, vrt.Go(func() { cancelA() }))
+		}
 		for ti, ops := range c.writers {
 			ti, ops := ti, ops
 			ths = append(ths, vrt.Go(func() {
@@ -554,6 +572,8 @@ func c05TwoScenario(c c05Two) *mc.Scenario {
 				x.Fail("C05|continued-past-undelivered-event"+cls, "%s (prefix %s, from revision %d) received %s (closed=%v); the matching changes are %s", s.name, s.prefix, int64(s.start)-base, evsString(s.recv), s.closed, evsString(E))
 			case !ok:
 				x.Fail("C05|gap-or-mismatch"+cls, "%s (prefix %s, from revision %d) received %s (closed=%v); the matching changes are %s", s.name, s.prefix, int64(s.start)-base, evsString(s.recv), s.closed, evsString(E))
+			case s == A && c.cancelA && !s.closed:
+				x.Fail("C05|cancelled-watch-still-open"+cls, "A's context was cancelled, everything is quiescent and drained, but its stream is still open (received %s)", evsString(s.recv))
 			case !s.closed && len(s.recv) != len(E):
 				x.Fail("C05|open-but-incomplete"+cls, "%s: the stream is still open and drained at quiescence, received %s, missing the tail of %s", s.name, evsString(s.recv), evsString(E))
 			}
